@@ -230,6 +230,24 @@ func checkToolchain(c *Ctx, prop string) error {
 		}
 		env.g[s] = r.Stdout
 	}
+	if prop == "C08" {
+		// design level: one compilation as an operational state machine (Assembly.tla), several runs in
+		// ONE process.  The shape machine that validates the recorded executions below accepts every
+		// execution of the design and tracks the abstraction of its state, the stack is never empty
+		// while lines are consumed and the stash only grows.
+		ml := "3"
+		if c.Tier == "thorough" {
+			ml = "4"
+		}
+		as, err := c.runTLC(TLCRun{Module: "MC_Assembly", Seed: c.Seed, Timeout: 30 * time.Minute, Workers: 8,
+			Constants: map[string]string{"Sigma": "<- MCSigma", "N": "= 2", "LeafD": "<- MCLeafD", "Deviations": "<- MCDev", "Cfg": "<- MCCfg",
+				"Schedules": "<- MCSchedules", "StashNames": "<- MCNames", "MaxLines": "= " + ml},
+			Invs: []string{"AcceptorComplete", "AcceptorTracks", "DepthOK"}, Props: []string{"StashGrows"}}, nil)
+		if err != nil {
+			return fmt.Errorf("model of Assembly (spec-level): %v", err)
+		}
+		c.Cov["assembly_model_states"] = as.Distinct
+	}
 	var mu sync.Mutex
 	var cases []toolCase
 	var enumerated int64
